@@ -117,7 +117,12 @@ class Trees(Profile):
         for i in range(n):
             r = rng.random()
             last = i == n - 1
-            if r < 0.4 and not last:
+            if r < 0.07 and not last:
+                # a request that fails by contract (misspelt element kind) but names new parameters
+                ops.append(dict(self.gen_tree(rng), op="tree_fail", g="g0", bad=rng.choice(["face center", "node", "edges", ""])))
+            elif r < 0.11 and not last:
+                ops.append({"op": "chunk", "g": "g0", "n": rng.choice([-1, 3, 5])})
+            elif r < 0.4 and not last:
                 ops.append(dict(self.gen_tree(rng), op="tree", g="g0"))
             elif r < 0.5 and not last and "g1" in sources:
                 ops.append({"op": "remap", "g": "g0", "dest": "g1", "method": rng.choice(["nn", "idw"]), "data_on": rng.choice(KINDS), "remap_to": rng.choice(KINDS), "coord_type": rng.choice(["spherical", "cartesian"])})
@@ -162,7 +167,7 @@ class Trees(Profile):
             yield dict(op, k=1)
 
     def op_class(self, op):
-        if op["op"] in ("tree", "query", "radius"):
+        if op["op"] in ("tree", "query", "radius", "tree_fail"):
             return f"{op['op']}:{op['type']}:{op.get('csys', 'default')}"
         return op["op"]
 
@@ -189,6 +194,25 @@ class Trees(Profile):
             if out[0] == "tree":
                 vs = self.check_params(t, op, i)
             return out, vs
+        if name == "tree_fail":
+            try:
+                O.get_tree(g, dict(op, coords=op["bad"]))
+                out = ("no-exception",)
+            except Exception as e:
+                out = ("exc", type(e).__name__)
+                W.fire("failed_op")
+                W.cov["failed_ops"] += 1
+            W.switched = True
+            return out, []
+        if name == "chunk":
+            try:
+                g.chunk(n_node=op["n"], n_edge=op["n"], n_face=op["n"])
+                out = ("chunked",)
+            except Exception as e:
+                out = ("exc", type(e).__name__)
+            W.fire("storage_switch")
+            W.switched = True
+            return out, []
         if name == "remap":
             import uxarray as ux
 
